@@ -156,6 +156,40 @@ fn c18_material_without_additional_data() { minimal_material(0); }
 #[kani::stub(core::str::validations::run_utf8_validation, crate::verif_support::refs::ascii_utf8_validation)]
 fn c18_material_with_two_bytes_of_additional_data() { minimal_material(2); }
 
+/// two texture paths, the first containing a byte >= 0x80 (Shift-JIS / Latin-1 names occur in old materials): the second
+/// path and the package name still start where the string table puts them (each path ends at ITS OWN terminator byte;
+/// how the high byte itself is rendered is left unconstrained)
+#[kani::proof]
+#[kani::unwind(20)]
+#[kani::stub(core::str::validations::run_utf8_validation, crate::verif_support::refs::ascii_utf8_validation)]
+fn c14_material_two_textures_high_byte() {
+    const TOTAL: usize = MT_TOTAL + 4;
+    let mut b: [u8; TOTAL] = kani::any();
+    let put16 = |b: &mut [u8; TOTAL], o: usize, v: u16| { let x = v.to_le_bytes(); b[o] = x[0]; b[o + 1] = x[1]; };
+    let put32 = |b: &mut [u8; TOTAL], o: usize, v: u32| { let x = v.to_le_bytes(); b[o] = x[0]; b[o + 1] = x[1]; b[o + 2] = x[2]; b[o + 3] = x[3]; };
+    let le32 = |b: &[u8; TOTAL], o: usize| u32::from_le_bytes([b[o], b[o + 1], b[o + 2], b[o + 3]]);
+    put16(&mut b, 8, 16); put16(&mut b, 10, 13);
+    b[12] = 2; b[13] = 0; b[14] = 0; b[15] = 4;
+    // 16: texture offset table (2 entries, symbolic); 24: strings
+    let strings = b"t\xE9.tex\0u.tex\0sh\0";
+    let mut i = 0;
+    while i < 16 { b[24 + i] = strings[i]; i += 1; }
+    put32(&mut b, 40, 0);
+    put16(&mut b, 44, 8); put16(&mut b, 46, 1); put16(&mut b, 48, 1); put16(&mut b, 50, 1);
+    put16(&mut b, 68, 0); put16(&mut b, 70, 8);
+    put32(&mut b, 72, 0x213CB439);
+    let m = Material::from_existing(&b).unwrap();
+    assert_eq!(m.texture_paths.len(), 2);
+    assert!(m.texture_paths[1].as_bytes() == b"u.tex");
+    assert!(m.shader_package_name.as_bytes() == b"sh");
+    assert!(m.texture_paths[0].as_bytes()[0] == b't');
+    assert_eq!(m.shader_keys.len(), 1);
+    assert_eq!((m.shader_keys[0].category, m.shader_keys[0].value), (le32(&b, 56), le32(&b, 60)));
+    assert_eq!(m.constants[0].id, le32(&b, 64));
+    kani::cover!(true);
+    core::mem::forget(m);
+}
+
 fn minimal_material(additional: u8) { material_case::<0, { MT_TOTAL }>(additional, 0); }
 
 /// DYE = size of the dye table stored behind the table flags; TOTAL = MT_TOTAL + DYE
